@@ -4,7 +4,7 @@
    races, the Go memory model and the real mutex are exercised at run time only. *)
 From Coq Require Import String List ZArith Bool.
 From MV Require Import Conc.LockKinds Conc.LockTable Conc.SetSpec Conc.Concurrent Conc.LinCheck
-  Conc.LinProofs Conc.ConcProofs.
+  Conc.LinProofs Conc.ConcProofs Conc.LinCompleteDefs Conc.LinCompleteProofs.
 Import ListNotations.
 
 Definition methods : list string :=
@@ -104,9 +104,83 @@ Theorem lin_check_sound :
 Proof. exact lin_check_sound_lemma. Qed.
 Print Assumptions lin_check_sound.
 
-(* NOT proved: completeness of the checker,
-     forall s0 H, linearizable s0 H -> (well-formed H) -> lin_check s0 H = true.
-   The check cross-examines every rejection with an independent brute-force oracle. *)
+(* the checker is also COMPLETE: it accepts every linearizable history that is thread-wise
+   well formed, i.e. call ids are unique and, walking the history with the map
+   "thread -> id of its call in progress" ([wf_from], Conc/LinCompleteDefs.v), an
+   invocation finds its thread idle and a response answers the call in progress of its
+   thread.  No size bound, incomplete histories included.  The proof shows that the memo
+   table only ever holds positions without a successful continuation, that the fuel
+   suffices on every explored branch (LinCompleteProofs.chk_spec), and that the lazy
+   search can follow any given sequential order (LinCompleteProofs.sim). *)
+Theorem lin_check_complete :
+  forall s0 H,
+    NoDup (inv_ids H) -> wf_from (fun _ => None) H ->
+    (exists S : list lentry,
+      seq_legal s0 S /\
+      NoDup (ids S) /\
+      (forall i t r, In (EResp i t r) H -> exists o, In (i, o, r) S) /\
+      (forall i o r, In (i, o, r) S -> exists t, In (EInv i t o) H) /\
+      (forall i j, before (is_resp i) (is_inv j) H -> In j (ids S) ->
+                   before (has_id i) (has_id j) S)) ->
+    lin_check s0 H = true.
+Proof. exact lin_check_complete_lemma. Qed.
+Print Assumptions lin_check_complete.
+
+(* hence on well-formed histories the checker decides linearizability exactly *)
+Theorem lin_check_exact :
+  forall s0 H,
+    NoDup (inv_ids H) -> wf_from (fun _ => None) H ->
+    (lin_check s0 H = true <->
+     exists S : list lentry,
+      seq_legal s0 S /\
+      NoDup (ids S) /\
+      (forall i t r, In (EResp i t r) H -> exists o, In (i, o, r) S) /\
+      (forall i o r, In (i, o, r) S -> exists t, In (EInv i t o) H) /\
+      (forall i j, before (is_resp i) (is_inv j) H -> In j (ids S) ->
+                   before (has_id i) (has_id j) S)).
+Proof. exact lin_check_exact_lemma. Qed.
+Print Assumptions lin_check_exact.
+
+(* and without any hypothesis: the checker accepts exactly the well-formed linearizable
+   histories (the well-formedness hypothesis above is as weak as is true) *)
+Theorem lin_check_characterisation :
+  forall s0 H,
+    lin_check s0 H = true <->
+    (NoDup (inv_ids H) /\ wf_from (fun _ => None) H /\
+     exists S : list lentry,
+      seq_legal s0 S /\
+      NoDup (ids S) /\
+      (forall i t r, In (EResp i t r) H -> exists o, In (i, o, r) S) /\
+      (forall i o r, In (i, o, r) S -> exists t, In (EInv i t o) H) /\
+      (forall i j, before (is_resp i) (is_inv j) H -> In j (ids S) ->
+                   before (has_id i) (has_id j) S)).
+Proof. exact lin_check_char_lemma. Qed.
+Print Assumptions lin_check_characterisation.
+
+(* the hypotheses of lin_check_complete are met by a history with overlapping calls in
+   which the call that returns last takes effect first *)
+Example lin_check_complete_hypotheses_met :
+  let h := [EInv 0 0 (Add (0, 1)%Z); EInv 1 1 (Contains (0, 1)%Z);
+            EResp 1 1 (RBool true); EResp 0 0 (RBool true)] in
+  NoDup (inv_ids h) /\ wf_from (fun _ => None) h /\ linearizable [] h /\ lin_check [] h = true.
+Proof.
+  simpl. split; [repeat constructor; simpl; intuition discriminate|].
+  split; [vm_compute; auto|].
+  split; [apply lin_check_sound_lemma; vm_compute; reflexivity|vm_compute; reflexivity].
+Qed.
+
+(* well-formedness cannot be dropped: two overlapping calls of ONE thread form a
+   linearizable history in the sense of the definition (empty order), which the checker
+   rejects as ill-formed *)
+Example lin_check_needs_well_formed :
+  let h := [EInv 0 0 (Contains (0, 1)%Z); EInv 1 0 (Contains (0, 1)%Z)] in
+  linearizable [] h /\ lin_check [] h = false.
+Proof.
+  simpl. split; [|vm_compute; reflexivity].
+  exists []. simpl. split; [exact I|]. split; [constructor|].
+  split; [intros i t r [E|[E|[]]]; discriminate|].
+  split; [intros i o r []|intros i j _ []].
+Qed.
 
 (* ---- non-vacuity ---- *)
 Definition ex_progs (t : nat) : list op :=
